@@ -115,6 +115,8 @@ class Values:
         if p in ("compound", "compoundstring") and fn not in ("GetCompoundDataNISTByName",):
             pool = ["H2O", "Ca5(PO4)3OH", "C6H12O6", "(NH4)2SO4", "Fe0.5Ni.25O1.25", "UO2(NO3)2(H2O)6", "Es2O3", "Pb", "LaB6", "SiO2", "(H2O)", "Mg(O(OH)2)3",
                     "Ca5.522(PO4.48)3OH", "Fe0.947O", "YBa2Cu3O6.93", "H0.5O0.25"]      # total atom counts that are not integers
+            pool += ["Ca" + "(" * k + "OH" + ")" * k + "2" for k in (30, 31, 32, 33, 34)]      # deep but well-formed nesting
+            pool += ["H2.00000000000000000000O", "Fe2O3.0000000000000000000", "SiO18446744073709551616", "C12345678901234567890123H"]   # very long digit runs
             bad = ["RfDb", "Rf2(SgO4)3", "DbBhO2", "Xx2Rf",                             # more than one reason to reject
                    None, "", "Hx", "h2o", "H2O ", "(H2O", "H2O)", "2H", "Rf", "H0", "He2..3", "Water", "()", "H2O\x01", "\xc3\xa9", "(SiO2)0", "Ca(OH)0", "(H2O)0.0",
                    "H.", "Ca.O", "H2(SO4).", "Ca5(PO4)0F", "Si" * 150, "(" * 40 + "H" + ")" * 40]
@@ -165,8 +167,9 @@ class Values:
             k = r.randrange(1, len(bad) - 1)
             bad[k], bad[-1] = bad[-1], bad[k]
         out.append(calls.crystal_user(cell, bad))
+        out.append("g:" + ";".join(float(v).hex() for v in cell))      # the same cell without any atom
         if not getattr(self, "_user_crystals", None):
-            self._user_crystals = out[-2:]
+            self._user_crystals = out[-3:]
         return out
 
 
@@ -270,7 +273,7 @@ def corner_pairs(vals, fn, kinds, names, zhint=26):
             slots.append(((i,), [(0,)]))
         elif k == "crystal":
             col = vals.crystals(3)
-            slots.append(((i,), [(v,) for v in ["cNULL", col[0], col[-2], col[-1]]]))
+            slots.append(((i,), [(v,) for v in ["cNULL", col[0], col[-3], col[-2], col[-1]]]))
         else:
             return []
         i += 1
@@ -357,6 +360,8 @@ def judge(fn, p, has_slot):
             bad.append(("error-code", "XRL_ERROR_INVALID_ARGUMENT", code))
         if len(msg) == 0:
             bad.append(("error-message", "non-empty message", msg[:80]))   # (a message may echo an unprintable offending character)
+    if err is None and (";od=-0x1.849p+9" in res or ";oi=-777" in res):
+        bad.append(("out-not-written", "every requested output written on success", res[:120]))      # the interpreter's sentinel is still there
     if has_slot and not p.get("noslot_same", True):
         bad.append(("noslot-differs", "bit-identical result without an error slot", res[:80]))
     if has_slot and not p.get("preset_ok", True):
